@@ -117,11 +117,12 @@ func minU(a, b uint64) uint64 {
 }
 
 // cases:
-//   relevant <maxzoom> <ivals> <ents>          -> tiles <ents> leaves <ents>
-//   reencode <ents>                            -> <ents> ranges <ranges> <total> <addressed> <contents>
-//   merge <overfetch float32 bits> <ranges>    -> <plans in destination order>           (generated with pairwise distinct gaps)
-//   mergechk <bits> <ranges> PLANS <plans>     -> planok true                             (the implementation's plans, any tie-breaking, through plan_ok)
-//   extract <minz> <maxz> <ivals|none> <bits> <threads> <f|h> <depth> <gzip> <arch> -> ok <projected header> <ents> <datahex> <metahex>
+//
+//	relevant <maxzoom> <ivals> <ents>          -> tiles <ents> leaves <ents>
+//	reencode <ents>                            -> <ents> ranges <ranges> <total> <addressed> <contents>
+//	merge <overfetch float32 bits> <ranges>    -> <plans in destination order>           (generated with pairwise distinct gaps)
+//	mergechk <bits> <ranges> PLANS <plans>     -> planok true                             (the implementation's plans, any tie-breaking, through plan_ok)
+//	extract <minz> <maxz> <ivals|none> <bits> <threads> <f|h> <depth> <gzip> <arch> -> ok <projected header> <ents> <datahex> <metahex>
 func c07run(line string) (string, []string) {
 	t := newToks(line)
 	switch t.s() {
